@@ -70,6 +70,12 @@ def run(ctx):
     C.run_tlc(ctx, "Client", "ClientDevGenIdOutsideLock.cfg", workers=4, expect_violation=True, timeout=300, tag="sensitivity:GenIdOutsideLock")
     C.run_tlc(ctx, "Client", "ClientJunk.cfg", workers=C.NCPU, timeout=1800, tag="ClientJunk.cfg")
     C.run_tlc(ctx, "Client", "ClientDevNoAckUnknownResult.cfg", workers=4, expect_violation=True, timeout=300, tag="sensitivity:NoAckForUnknownResult")
+    # the numbering alone, over unbounded integers: TLC on a window (each deviation must break it), Apalache discharges the
+    # inductive invariant for every clock value and every length of history
+    ids = C.run_tlc(ctx, "MsgIds", "MsgIds.cfg", workers=C.NCPU, timeout=600, tag="MsgIds.cfg")
+    for dev in ("GenIdOutsideLock", "ReturnNotStore", "SeqResetOnReconnect", "SeqFromSnapshot"):
+        C.run_tlc(ctx, "MsgIds", "MsgIdsDev%s.cfg" % dev, workers=4, expect_violation=True, timeout=300, tag="sensitivity:MsgIds:" + dev)
+    apa = C.run_apalache(ctx, "MsgIds", [("Init", "IndInv", 0), ("IndInit", "IndInv", 1), ("IndInit", "Safety", 0)])
     scs = scenarios(ctx, thorough)
     st = S.judge(ctx, scs, S.K_WIRE | {"process-died"}, "order")
     C.write_evidence(ctx, "model_checking", {
@@ -81,5 +87,8 @@ def run(ctx):
                 "taking their id, released in every order) replayed with real goroutines, named hold-and-overtake schedules, server "
                 "histories mixing content-related and service messages, seeded 8-goroutine runs; the server's arrival-order log of "
                 "(msg_id, seq_no, kind) judged by TLC (ClientTrace)",
+        "unbounded_numbering": {"module": "MsgIds.tla", "tlc_window_states": ids.distinct,
+                                "apalache_inductive_steps": [{"step": a["tag"], "ok": a["ok"]} for a in apa],
+                                "proved_for_every_clock_value_and_history_length": all(a["ok"] for a in apa)},
         "samples": st["sample"], "exhaustive": False, "verdict_kinds_seen": st["verdict_kinds"], "kinds_not_judged_here": st["ignored_kinds"],
     }, ["arrival order at the reference server = write order (one TCP connection)", "whether an acknowledgement advances seq_no is left open"])
